@@ -13,7 +13,8 @@ ASSUMPTIONS = [
   "single thread; values are small ints chosen so that no statement raises (no '@', no division by zero)",
   "'holds no lock' is read from the descriptor's RLock (_is_owned) in the calling thread; the replay also probes the lock from a second thread",
 ]
-OUTSIDE = ["statements that raise an exception half-way", "statements spread over several source lines", "operator '@'"]
+OUTSIDE = ["statements that raise an exception half-way", "statements spread over several source lines", "operator '@'",
+           "E1: variable names other than v / w / the pool %s (the regular-language query ranges over arbitrary identifiers)" % ["ax", "x", "xa", "a_x", "x1"]]
 EXPLANATION = ("Bounded symbolic execution (CrossHair/z3) over a grammar of statements that read or write a thread-safe attribute A=o.x: v = A, v = A op w, "
                "v = w op A, if A cmp w:, while w cmp A:, return A cmp w, f(A), f(k=A), v op= A, A = w, A op= w, A op= A, A op= A op w, "
                "'_, _lock = A', and statements using two attributes of one object (A op= B, v = A op B, A = B, if A cmp B:, v op= A op B, A op= B op w, "
@@ -119,6 +120,41 @@ def case(form, op, sp):
 
 
 Family(globals(), "h_statement", params=[("form", 0, 13), ("op", 0, 11), ("sp", 0, 2)], pre=pre, case=case, split=[], tiers=LIM)
+
+
+# ---- the other variable of the statement is named like the attribute (ends with it, starts with it, is it) -----------------------------------
+VNAMES = ["ax", "x", "xa", "a_x", "x1"]
+
+
+def pre_named(v, lim):
+  return v["form"] in (1, 2, 7, 8) and pre(dict(v), lim) and v["sp"] <= 1
+
+
+def case_named(form, op, sp, vn):
+  """the forms that have a second variable (v = A op w, v = w op A, f(k=A), v op= A), with that variable called VNAMES[vn]"""
+  from miros.thread_safe_attributes import MetaThreadSafeAttributes
+  import re as _re
+
+  class Thing(metaclass=MetaThreadSafeAttributes):
+    _attributes = ["x"]
+  o = Thing()
+  desc = Thing.__dict__["x"]
+  name = VNAMES[vn]
+  text = _re.sub(r"\b(v|k)\b", name, statement(form, op, sp))
+  ns = {"o": o, "w": 2, name: 5, "f": (lambda *a, **k: None)}
+  try:
+    run_statement("o.x = 7", ns)
+    run_statement(text, ns)
+  except Exception as ex:
+    return FAIL("statement-raised:%s:%s" % (FORMS[form], type(ex).__name__), "%r: %r" % (text, ex))
+  if desc._lock._is_owned():
+    return FAIL("lock-kept-after:variable-named-like-the-attribute", "statement %r (another variable called %r, attribute x) leaves the attribute's lock held" % (text, name))
+  if o.x != 7:
+    return FAIL("wrong-value-after:variable-named-like-the-attribute", "%r: o.x is %r expected 7" % (text, o.x))
+  return PASS(nontrivial=True)
+
+
+Family(globals(), "h_named", params=[("form", 0, 13), ("op", 0, 11), ("sp", 0, 2), ("vn", 0, len(VNAMES) - 1)], pre=pre_named, case=case_named, split=[], tiers=LIM)
 
 
 # ---- statements that use two thread-safe attributes of the same object ---------------------------------------------
